@@ -1,4 +1,6 @@
 """C16 - outputs, log-abs-dets and log_prob are differentiable with correct, finite gradients (autograd vs central differences)."""
+import json
+
 import numpy as np
 import torch
 from hypothesis import strategies as st
@@ -174,6 +176,15 @@ def run_case(case):
                 res.labels.append("extreme_slope")
                 res.inconclusive += 1
                 return res
+        if '"act": "relu"' in json.dumps(case["spec"]):
+            # ReLU conditioners: structural exact zeros (a zero-initialised layer, batch norm of a constant batch feeding exactly its
+            # bias 0.0 into the ReLU) put several units exactly on their kink, where no difference quotient along one direction can
+            # referee; move every parameter off such points by a small jitter (smooth activations are tested exactly as initialised)
+            gj = torch.Generator().manual_seed(case["seed"] + 31)
+            with torch.no_grad():
+                for p_ in obj.parameters():
+                    p_.add_(1e-3 * torch.randn(p_.shape, generator=gj))
+            res.labels.append("relu_jitter")
         params = [(nm, p) for nm, p in obj.named_parameters() if p.requires_grad]
         Xr = X.clone().requires_grad_(True)
         Cr = C.clone().requires_grad_(True) if C is not None else None
@@ -216,6 +227,8 @@ def run_case(case):
         if _has(case["spec"], ("c_cub", "ar_cub", "cdf_cub", "fn_cub")) and (target == "inverse" or _has(case["spec"], ("inverse",))):
             tolrel = 2e-4   # cubic inverse: autograd differentiates the closed-form root (with its cancellation) plus two Newton steps
 
+        one_sided = [0.0, 0.0]
+
         def fd(apply, h):
             with torch.no_grad():
                 apply(+h)
@@ -223,6 +236,7 @@ def run_case(case):
                 apply(-2 * h)
                 sm = float(s_of(X if apply.kind != "inputs" else apply.val, C if apply.kind != "context" else apply.val))
                 apply(+h)
+            one_sided[0], one_sided[1] = (sp - float(s)) / h, (float(s) - sm) / h
             return (sp - sm) / (2 * h)
 
         class Dir:
@@ -267,6 +281,12 @@ def run_case(case):
                 raise
             if not (np.isfinite(f1) and np.isfinite(f2)):
                 res.inconclusive += 1
+                continue
+            # a point EXACTLY on a kink (batch norm of a constant batch feeds exactly its bias, 0.0 at initialisation, into a ReLU) is
+            # symmetric: both central differences agree, but the forward and the backward difference do not
+            if target != "sample" and abs(one_sided[0] - one_sided[1]) > 20 * tolrel * (1 + abs(f2)) + 8 * abs(f1 - f2) + 64 * 2.2e-16 * abs(float(s)) / 5e-7:
+                res.inconclusive += 1
+                res.labels.append("kink_at_the_point")
                 continue
             if abs(f1 - f2) > 1e-4 * (1 + abs(f1)) * (20 if b.umnn else 1):
                 res.inconclusive += 1          # the two step sizes disagree: a kink lies within h of the point
